@@ -553,6 +553,9 @@ class Exec:
         k = self.known(c)
         if k is not None:
             return k
+        k = self.int_known(c)
+        if k is not None:
+            return k
         if self.trail is None:
             raise OutOfSubset("symbolic branch in a context without path enumeration")
         if self.pos < len(self.trail):
@@ -564,6 +567,25 @@ class Exec:
         self.decisions.append((v, default))
         self.pc.append(c if v else tm.lnot(c))
         return v
+
+    def int_known(self, c):
+        """cheap pruning of infeasible branches on pure integer (length/index) conditions: decided by z3 against
+        the integer part of the path condition"""
+        def pure_int(t):
+            return all(n.op != "app" and not (n.op == "var" and n.sort != tm.I) and n.op not in ("exp", "log", "rpow", "sqrt", "/") for n in tm.postorder(t))
+        if not pure_int(c) or not tm.free_vars(c):
+            return None
+        base = [p for p in self.pc if pure_int(p) and tm.free_vars(p)]
+        if not base:
+            return None
+        from . import backends as be
+        sat_t, _ = be.check_sat(base + [c], timeout_ms=500)
+        sat_f, _ = be.check_sat(base + [tm.lnot(c)], timeout_ms=500)
+        if sat_t is False and sat_f is not False:
+            return False
+        if sat_f is False and sat_t is not False:
+            return True
+        return None
 
     def need(self, cond, what):
         """well-definedness condition"""
